@@ -70,6 +70,27 @@ def run(ctx, module, weights, tags, n_quick=250, len_quick=60, n_thorough=4000, 
             r2 = hist.run_correspondence(ctx, hs, exe2, model)
             results.append(("debug/std-only", exe2, r2))
             configs.append("debug/std only")
+    if ctx.thorough():
+        # release profile: the crate's debug_asserts vanish (IteratorAsExactSizeIterator's size-hint
+        # checks, from_arc, into_inner, protected_into_thin, with_arc_mut).  The model's `step` is the
+        # debug-assertions-on behaviour, so histories whose iterator changes its size_hint between
+        # calls (the only place where the two profiles differ on valid inputs) are left out here.
+        exe3, o3 = common.cargo_build_bin(ctx, "hist", release=True)
+        if exe3:
+            def hint_changes(h):
+                for op in h:
+                    if op.startswith("iter ") and "," in op.split("hints=")[1].split()[0]:
+                        return True
+                return False
+            hs_rel = [h for h in hs if not hint_changes(h)]
+            r3 = hist.run_correspondence(ctx, hs_rel, exe3, model)
+            # indices of r3 refer to hs_rel: remap to hs for reporting
+            idx = [i for i, h in enumerate(hs) if not hint_changes(h)]
+            r3.disagreements = [(idx[hi], k, a, b) for (hi, k, a, b) in r3.disagreements]
+            r3.monitor_fails = [(idx[hi], k, p, m) for (hi, k, p, m) in r3.monitor_fails]
+            r3.crashes = [(idx[hi], rc) for (hi, rc) in r3.crashes]
+            results.append(("release", exe3, r3))
+            configs.append("release/default+unsize+arc-swap (histories with changing size_hints excluded)")
     agreed = all(not r.disagreements and not r.crashes for _, _, r in results)
     ctx.oblige("corr:hist-model-vs-impl", agreed,
                "; ".join("%s: %d disagreements, %d crashes" % (nm, len(r.disagreements), len(r.crashes)) for nm, _, r in results))
